@@ -9,7 +9,7 @@
    zero-amount AddFT (touch) only if [tch = true].  [good s] = the two invariants of reachable states. *)
 From stdpp Require Import gmap.
 From V.Base Require Import Hex BigEndian.
-From V.C04 Require Import Model Harness Sim Undo Roundtrip Steps Nested Observe Refute.
+From V.C04 Require Import Model Harness Sim Undo Roundtrip Steps Nested Observe Refute Root.
 Local Open Scope N_scope.
 
 (* Headline.  From any state satisfying the reachable-state invariants, with Proposal002 active: after
@@ -64,6 +64,31 @@ Proof. exact good_after_revert. Qed.
 Print Assumptions C04_revert_restores_journal.
 
 (* ---------- the root clause ---------- *)
+(* deleteEmptyObjects = false, the code as it is: the account trie written by Finalise(false) right after
+   the revert is the one Finalise(false) writes on the state at snapshot time, hence equal roots (C02).
+   [rinv] = invariant of reachable states (storage caches coherent, clean objects equal to their committed
+   leaf, self-destructed objects dirty), see C04_reachable_rinv.  Guards: no self-destruct (re-encodes the
+   balance slot), no zero-amount AddFT (touch), no GetCommittedState inside the reverted part. *)
+Theorem C04_root_equal_nodelete : forall s body,
+  good s -> p002 s = true -> rinv s -> Forall (item_ok true false) body ->
+  fin_trie false false (after_revert body s) = fin_trie false false s.
+Proof. intros s body [Hw Hb]. apply root_equal_nodelete; auto. Qed.
+Print Assumptions C04_root_equal_nodelete.
+
+(* deleteEmptyObjects = true holds for the REPAIRED emptiness test (no code, nonce 0, empty storage
+   content) provided no committed leaf is an empty account (see the two refutations below for why
+   both conditions are needed). *)
+Theorem C04_root_equal_fixed_empty : forall s body,
+  good s -> p002 s = true -> rinv s -> no_empty_leaf (trie s) -> Forall (item_ok true false) body ->
+  fin_trie true true (after_revert body s) = fin_trie true true s.
+Proof. intros s body [Hw Hb]. apply root_equal_fixed_empty; auto. Qed.
+Print Assumptions C04_root_equal_fixed_empty.
+
+Theorem C04_reachable_rinv : forall tr cs tok th prog,
+  trie_ok tr -> Forall (item_ok true false) prog -> rinv (fst (run prog (fresh tr cs tok true th))).
+Proof. exact reach_rinv. Qed.
+Print Assumptions C04_reachable_rinv.
+
 (* REFUTED for deleteEmptyObjects = true: empty() ignores the committed storage root.
    Witness: committed A = {nonce 0, no code, slot 1 -> 05}; Snapshot; SetNonce(A,7); RevertToSnapshot;
    Finalise(true) deletes A with its storage, the never-executed state keeps it. *)
